@@ -472,6 +472,14 @@ def F6(m, R):
         if None in (OLD, NEW, to_rem, to_app) or set(names) != {OLD, NEW}:
             R.undecided(host, host.node, 'roles of the two states / two lists of the diff not recognised', construct='set_ansi_str diff')
             host = None
+    # the list handed to apply_formatting may be a re-ordering / filtering of the list the diff fills: [x for x in <seq> if <x among L>]
+    app_sources = {to_app} if host is not None else set()
+    if host is not None:
+        for n in host.walk():
+            if isinstance(n, ast.Assign) and norm(n.targets[0]) == to_app and isinstance(n.value, ast.ListComp) and len(n.value.generators) == 1 and \
+                    norm(n.value.elt) == norm(n.value.generators[0].target) and n.value.generators[0].ifs:
+                for c_ in n.value.generators[0].ifs:
+                    app_sources |= {x for x in names_in(c_) if x != norm(n.value.generators[0].target)}
     for status in (('only-new', 'only-old', 'both-same', 'both-diff') if host is not None else ()):
         cons = 'set_ansi_str diff %s' % status
         events = []
@@ -491,7 +499,7 @@ def F6(m, R):
                         lst = norm(st.value.func.value)
                         a = norm(st.value.args[0])
                         which = 'old' if a in ('%s[%s]' % (OLD, K),) or (src == OLD and a == V) else 'new' if (a == '%s[%s]' % (NEW, K) or (src == NEW and a == V)) else a
-                        events.append(('remove' if lst == to_rem else 'apply' if lst == to_app else lst, which))
+                        events.append(('remove' if lst == to_rem else 'apply' if lst in app_sources else lst, which))
                     for x in ast.walk(st):
                         if isinstance(x, ast.Subscript) and norm(x.value) == OLD:
                             sub_old.append(st)
